@@ -19,6 +19,96 @@ def matOfList (n : Nat) (l : List Int) : Nat → Nat → Int := fun r c => l.get
 def listOfMat (n : Nat) (M : Nat → Nat → Int) : List Int :=
   (List.range n).flatMap fun r => (List.range n).map fun c => M r c
 
+
+/-- scripted phases for the main-loop model: state = (rounds relabelled so far, current
+labelling id, phase trace).  `relabel` in round `j` yields `script[j]` (cycled when `cyc`).
+`fault = (round, phase)` makes that phase raise. -/
+structure LoopSt where
+  counter : Nat
+  label : Nat
+  trace : List String
+
+def scriptedPhases (script : List Nat) (cyc : Bool) (fault : Option (Nat × String)) :
+    MainLoop.Phases LoopSt String :=
+  let fails (s : LoopSt) (ph : String) : Bool :=
+    match fault with
+    | some (r, p) => r == s.counter && p == ph
+    | none => false
+  let stepPh (ph : String) (s : LoopSt) : Except String LoopSt :=
+    if fails s ph then .error s!"{s.counter}:{ph}" else .ok { s with trace := s.trace ++ [ph] }
+  { repop := stepPh "repop"
+    stats := stepPh "stats"
+    opt := stepPh "opt"
+    relabel := fun s =>
+      if fails s "relabel" then .error s!"{s.counter}:relabel" else
+      let j := if cyc then s.counter % script.length else min s.counter (script.length - 1)
+      .ok { counter := s.counter + 1, label := script.getD j 0, trace := s.trace ++ ["relabel"] } }
+
+/-! heap histories (C13 / C19) -/
+open FastTicc.Heap in
+def showArr (a : Option Arr) : String := match a with | some x => s!"o{x.id}/{x.val}" | none => "-"
+open FastTicc.Heap in
+def showParam (p : Param) : String := match p with | .scalar _ => "s" | .array a => s!"o{a.id}/{a.val}"
+def showOptNat (o : Option Nat) : String := match o with | some v => toString v | none => "-"
+
+open FastTicc.Heap in
+def dumpHeap (h : Heap) : String :=
+  let stateItems := (List.range h.states.length).map fun i =>
+    match h.states[i]? with
+    | none => ""
+    | some st =>
+      let lab := match st.labels with
+        | some (id, ls) => s!"o{id}:" ++ showNats ls
+        | none => "None:-"
+      s!"S{i}:L={lab}:CL=o{st.clustersId}:C=" ++ showList (fun r => s!"c{r}") "," st.clusters
+        ++ s!":A=a{st.args}:D=o{st.data.id}/{st.data.val}:P={showArr st.pll}:cost={showOptNat st.cost}"
+        ++ s!":inv={InvB h i}"
+  let refs := (h.states.flatMap (·.clusters)).eraseDups
+  let cellItems := refs.map fun r =>
+    let c := h.cluster r
+    s!"c{r}:m=" ++ showNats c.members ++ s!":cc={showArr c.computedCov}:ec={showArr c.empCov}:ic={showArr c.invCov}"
+      ++ s!":mu={showArr c.mean}:ti={showArr c.trainInv}:ld={showOptNat c.logDet}"
+  let argRefs := (h.states.map (·.args)).eraseDups
+  let argItems := argRefs.map fun a =>
+    let x := h.argsOf a
+    s!"a{a}:lam={showParam x.lam}:beta={showParam x.beta}:K={x.K}"
+  " ".intercalate (stateItems ++ cellItems ++ argItems)
+
+open FastTicc.Heap in
+def heapOp (repaired : Bool) (h : Heap) (op : String) : Option Heap :=
+  match op.splitOn ":" with
+  | ["init", K, lamK, betaK] => do
+      let K ← parseNat? K
+      -- identities: data o0, lam o1 (if array), beta o2 (if array); next = 3
+      let lam : Param := if lamK == "a" then .array ⟨1, 1⟩ else .scalar 0
+      let beta : Param := if betaK == "a" then .array ⟨2, 2⟩ else .scalar 0
+      let h0 : Heap := ⟨[], [⟨lam, beta, K⟩], [], 3⟩
+      pure (emptyModel h0 0 ⟨0, 1000000⟩).2
+  | ["assign", s, ls] => do
+      let s ← parseNat? s; let ls ← parseNats? ls
+      let (lid, h1) := h.fresh
+      pure (assign h1 s (lid, ls))
+  | ["shallow", s] => do let s ← parseNat? s; pure (shallowState h s).2
+  | ["deep", s] => do let s ← parseNat? s; pure (deepState repaired h s).2
+  | ["repop", s, moves] => do
+      let s ← parseNat? s; let mv ← parseNatss? moves
+      pure (repopPhase h s mv).2
+  | ["stats", s] => do let s ← parseNat? s; pure (statsPhase h s).2
+  | ["opt", s] => do let s ← parseNat? s; pure (optPhase h s).2
+  | ["relabel", s, ls] => do
+      let s ← parseNat? s; let ls ← parseNats? ls
+      pure (relabelPhase h s ls 0).2
+  | _ => none
+
+open FastTicc.Heap in
+def heapHistory (repaired : Bool) (ops : List String) : Option String := do
+  let mut h : Heap := ⟨[], [], [], 0⟩
+  let mut outs : List String := []
+  for op in ops do
+    h ← heapOp repaired h op
+    outs := outs ++ [dumpHeap h]
+  pure (" # ".intercalate outs)
+
 def bad : String := "bad-op"
 
 def opt (o : Option String) : String := o.getD bad
@@ -117,6 +207,34 @@ def step (line : String) : String :=
       let t ← parseRat? thr; let rows ← parseRatss? rows
       pure (toString (Result.nnz t rows))
   | ["bicthreshold"] => some (showRat (mkRat Constants.bicThresholdNum Constants.bicThresholdDen)) |>.getD bad
+  -- ---------------------------------------------------------------- C09 / C20
+  | ["mainloop", limit, cyc, script, faultR, faultP] => opt do
+      let limit ← parseNat? limit
+      let script ← parseNats? script
+      if script.isEmpty then none else
+      let fault : Option (Nat × String) := (faultR.toNat?).map (fun r => (r, faultP))
+      let P := scriptedPhases script (cyc == "1") fault
+      let r := MainLoop.runWithPool true P (fun s => s.label) limit ⟨0, 1000000, []⟩
+      let rp := MainLoop.runWithPool false P (fun s => s.label) limit ⟨0, 1000000, []⟩
+      pure (match r.1 with
+        | .ok o => s!"ok {o.rounds} {o.final.label} " ++ showList id "," o.final.trace ++ " "
+                   ++ showNats (o.history.map (·.label)) ++ s!" {repr r.2} {repr rp.2}"
+        | .error e => s!"err {e} {repr r.2} {repr rp.2}")
+  | ["gather", tasks] => opt do
+      -- tasks: comma list of `v<nat>` (value) or `e<nat>` (error)
+      let ts ← (splitList tasks ",").mapM (fun t =>
+        if t.startsWith "v" then (t.drop 1).toNat?.map (fun n => (Except.ok n : Except Nat Nat))
+        else if t.startsWith "e" then (t.drop 1).toNat?.map (fun n => (Except.error n : Except Nat Nat))
+        else none)
+      pure (match MainLoop.gather ts with
+        | .ok vs => "ok " ++ showNats vs
+        | .error e => s!"err {e}")
+  | ["complete", K, sched] => opt do
+      let K ← parseNat? K; let sched ← parseNats? sched
+      pure (showList (fun (o : Option Nat) => match o with | some v => toString v | none => "none") ","
+              (MainLoop.complete (fun k => 100 + k) K sched))
+  -- ---------------------------------------------------------------- C13 / C19
+  | "heap" :: rep :: ops => (heapHistory (rep == "1") ops).getD bad
   -- ---------------------------------------------------------------- C08
   | ["repop", K, m, spreads, order, recorded, labels] => opt do
       let K ← parseNat? K; let m ← parseNat? m
